@@ -87,6 +87,7 @@ def gen_cfg(rng, faults, thorough=False):
         "pcancellable": rng.choice([0.0, 0.5, 1.0]),
         "seed": rng.randrange(1 << 30),
     }
+    cfg["double_cancel"] = bool(cfg["cancel_at"] is not None and rng.random() < 0.35)
     cfg["goal_api"] = rng.choice(["callable", "npoints", "loss"]) if kind in ("stub", "l1d") else "callable"
     cfg["loss_goal"] = rng.choice([0.5, 0.25, 0.15, 0.08])
     return cfg
@@ -413,6 +414,9 @@ def run_check(ctx, modules, oracles, faults, explanation, extra_trusted=(), part
             f = orc(res)
             if f:
                 failures.append({"clause": f[0], "signature": f"{ctx.prop_id}.{f[0]}", "detail": f[1], "replay": cfg})
+        if any(c[0] == "cancel_event2" for c in res["rec"].flat):
+            corr.count("oracle_only:second_cancel_during_shutdown")   # not an event of the Lean model: trace oracles only
+            continue
         cases.append({"lines": res["lines"], "impl": res["impl"], "meta": cfg})
         corr.count("runner:" + cfg["runner"])
         corr.count("status:" + str(res["status"]))
